@@ -304,6 +304,33 @@ func AddParens(m *Module, r *run.Rng, k int) (undo func()) {
 		}
 		rec(slot)
 	}
+	var heads []*Expr
+	head := func(slot *Expr) {
+		for s := slot; s != nil && *s != nil; {
+			switch (*s).(type) {
+			case *AddrOf, *Materialize:
+				return
+			}
+			if t := (*s).T(); t == nil || t.Kind == KPtr {
+				return
+			}
+			heads = append(heads, s)
+			cs := ExprSlots(*s)
+			if len(cs) == 0 {
+				return
+			}
+			if _, isCall := (*s).(*CallE); isCall {
+				return
+			}
+			if _, isB := (*s).(*Builtin); isB {
+				return
+			}
+			if _, isC := (*s).(*Cons); isC {
+				return
+			}
+			s = cs[0]
+		}
+	}
 	for _, d := range m.Decls {
 		if d.Func == nil {
 			continue
@@ -322,8 +349,36 @@ func AddParens(m *Module, r *run.Rng, k int) (undo func()) {
 				}
 			case *If:
 				collect(&s.Cond)
+				head(&s.Cond)
+			case *Switch:
+				collect(&s.Sel)
+				head(&s.Sel)
+			case *While:
+				collect(&s.Cond)
+				head(&s.Cond)
+			case *For:
+				if s.Cond != nil {
+					collect(&s.Cond)
+					head(&s.Cond)
+				}
+			case *Loop:
+				if s.BreakIf != nil {
+					collect(&s.BreakIf)
+				}
+			case *CallS:
+				for i := range s.C.Args {
+					collect(&s.C.Args[i])
+				}
 			}
 		}, nil)
+	}
+	// statement heads (`switch (a) & 3u {`, `if (x) < y {`, `while (i) < n {`): the operand the statement keyword is
+	// followed by, and the operands that start it, are drawn as often as all other positions together
+	if len(heads) > 0 && len(slots) > 0 {
+		for len(heads) < len(slots) {
+			heads = append(heads, heads...)
+		}
+		slots = append(slots, heads[:len(slots)]...)
 	}
 	if len(slots) == 0 {
 		return func() {}
